@@ -177,6 +177,59 @@ fn directory_entry() {
     }
 }
 
+// ---- transformed hmtx (WOFF2 section 5.4) ----------------------------------------------------
+fn hmtx_case(flags: u8) {
+    // 2 glyphs (both empty: xMin counts as 0), numberOfHMetrics = 1. Flags bit 0: lsb[] is absent (take xMin), bit 1: leftSideBearing[] is absent.
+    let adv: u16 = kani::any();
+    let v1: i16 = kani::any();
+    let v2: i16 = kani::any();
+    let mut b = [0u8; 7];
+    b[0] = flags;
+    b[1] = (adv >> 8) as u8; b[2] = adv as u8;
+    b[3] = (v1 as u16 >> 8) as u8; b[4] = v1 as u8;
+    b[5] = (v2 as u16 >> 8) as u8; b[6] = v2 as u8;
+    let present = (if flags & 1 == 0 { 1 } else { 0 }) + (if flags & 2 == 0 { 1 } else { 0 });
+    let n = 3 + 2 * present;
+    let glyf = GlyfTable::new(vec![GlyfRecord::Parsed(Glyph::Empty(crate::tables::glyf::EmptyGlyph { phantom_points: None })),
+                                   GlyfRecord::Parsed(Glyph::Empty(crate::tables::glyf::EmptyGlyph { phantom_points: None }))]).unwrap();
+    let entry = TableDirectoryEntry { tag: tag::HMTX, offset: 0, orig_length: 6, transform_length: Some(n as u32) };
+    let mut ctxt = ReadScope::new(&b[..n]).ctxt();
+    let r = ctxt.read_dep::<Woff2HmtxTable>((&entry, &glyf, 2, 1));
+    match r {
+        Ok(hmtx) => {
+            assert!(hmtx.h_metrics.len() == 1);
+            let m = hmtx.h_metrics.get_item(0).unwrap();
+            assert!(m.advance_width == adv, "advanceWidth stream");
+            if flags & 1 == 0 {
+                assert!(m.lsb == v1, "lsb[] present: taken from the stream");
+            } else {
+                assert!(m.lsb == 0, "lsb[] absent: reconstructed from the glyph's xMin (0 for an empty glyph)");
+            }
+            if flags & 2 == 0 {
+                let want = if flags & 1 == 0 { v2 } else { v1 };
+                assert!(hmtx.left_side_bearings.len() == 1 && hmtx.left_side_bearings.get_item(0) == Some(want), "leftSideBearing[] present: the next stream values");
+            }
+            assert!(consumed(&ctxt, n) == n, "the whole transformed table is consumed");
+        }
+        Err(_) => assert!(false, "a well-formed transformed hmtx table is decoded"),
+    }
+}
+
+//@ harness hmtx_flags_0 kind=bounded:2glyphs_1hmetric_both_streams fns=Woff2HmtxTable::read_dep,HmtxTableFlag::lsb_is_present,HmtxTableFlag::left_side_bearing_is_present timeout=900
+#[kani::proof]
+#[kani::unwind(6)]
+fn hmtx_flags_0() { hmtx_case(0); }
+
+//@ harness hmtx_flags_1 kind=bounded:2glyphs_1hmetric_lsb_from_xmin fns=Woff2HmtxTable::read_dep,HmtxTableFlag::lsb_is_present,HmtxTableFlag::left_side_bearing_is_present timeout=900
+#[kani::proof]
+#[kani::unwind(6)]
+fn hmtx_flags_1() { hmtx_case(1); }
+
+//@ harness hmtx_flags_2 kind=bounded:2glyphs_1hmetric_left_side_bearing_from_xmin fns=Woff2HmtxTable::read_dep,HmtxTableFlag::lsb_is_present,HmtxTableFlag::left_side_bearing_is_present timeout=900
+#[kani::proof]
+#[kani::unwind(6)]
+fn hmtx_flags_2() { hmtx_case(2); }
+
 // ---- bbox bitmap ---------------------------------------------------------------------------
 //@ harness bitslice_get kind=bounded:4bytes fns=BitSlice::get,BitSlice::len
 #[kani::proof]
